@@ -39,6 +39,22 @@ PROPS = {
           'canary rows beyond n intact on successful calls; frames delivered earlier unchanged at the end. Non-trivial: the case completed '
           'with a reader actually driven; distinct by descriptor.',
           must_observe=['rows_delivered', 'reads']),
+ 'C09': P('exploration',
+          'cases: (a) exhaustive groups = (key schema, fold, alphabet size k, max length L, initial capacity in {1,2,4,8}, scratch in {1,2,8}, '
+          'optionally keys brute-forced to collide in HashWithSeed&7): every key sequence over the alphabet up to length L is fed to a '
+          'combining frame (views at non-zero offset) and compacted; (b) random skewed streams into combining frames with mid-stream '
+          'compactions; (c) random streams into the spilling combiner with spill thresholds 1..50 and larger, initial table sizes 1..128, '
+          'drained through a destination adversary or discarded. Oracle: map model with sum/xor/min. Non-trivial: group enumerated / table '
+          'resized / combiner spilled at least once.',
+          must_observe=['key_sequences', 'table_resizes', 'combiners_that_spilled', 'spill_dir_checks'], leftover_is_violation=True),
+ 'C18': P('exploration',
+          'every (constructor, slice type, function signature) triple of the cross product: 8 function-taking constructors x 13 slice types '
+          '(prefix 1 and 2, unhashable and op-less keys) x ~700 signatures built with reflect.MakeFunc (exact, context-first, permuted, arity +-1, '
+          'interface-typed, variadic, accumulator-first, writer/reader shaped, 15 result lists, non-func values), plus structural constructors '
+          '(Const, Prefixed, Head, Scan, Reshuffle, Reshard, Cogroup over all pairs). Exhaustive in that universe. Oracle: independent schema '
+          'table (c18expected) + any panic must be a *typecheck.Error located at the calling line. Each Case is one (constructor, slice type) '
+          'group; distinct triples are counted in |triples|.',
+          nbatch=(4, 4), must_observe=['accepted', 'rejected', 'calls']),
 }
 
 META = {
@@ -66,4 +82,15 @@ META = {
     note='ReaderFunc is exempt from the canary check (the whole destination is handed to the user function by API design); reduce never '
          'gets (0,nil) upstream reads (documented end of input); destination contents after a failed call are not asserted.',
     technique='contract monitoring with destination/chunking adversaries and reference operator semantics'),
+ 'C09': dict(
+    text='Exploration: the real combining frame and spilling combiner (through the verif exports) are fed exhaustively enumerated small '
+         'key sequences and large skewed streams at hostile capacities and spill thresholds; oracle is a map fold.',
+    note='Uses exec.VerifMakeCombiningFrame/VerifNewCombiner (tag verif). Combine functions are commutative and associative.',
+    technique='bounded-exhaustive + random runtime monitoring against a map model; temp-dir leak check'),
+ 'C18': dict(
+    text='Exhaustive over a finite universe of slice types and function signatures: each constructor is called and its acceptance, panic '
+         'type/location and result shape are compared with an independently written schema table; combinations the docs do not settle are '
+         'only checked for panic shape.',
+    note='The table encodes the doc comments; prefix inheritance of Map/Flatmap and Fold accumulator key kinds are treated as undocumented.',
+    technique='exhaustive enumeration with an independent schema table as oracle'),
 }
